@@ -82,7 +82,9 @@ pub fn internal_names(g: &GlobalDataArc) -> Vec<String> {
 
 fn src(t: &str, id: usize) -> Data { Data::Source(SourceCode::new(t, id)) }
 
-const TARGETS: [&str; 12] = ["", "#_internal", "#_scxml_2", "#_scxml_3", "#_parent", "#_child", "#_scxml_9", "#_scxml_x", "http://example.org/x", "#_scxml_1", "#_scxml_", "#_scxml_-1"];
+const TARGETS: [&str; 13] = ["", "#_internal", "#_scxml_2", "#_scxml_3", "#_parent", "#_child", "#_scxml_9", "#_scxml_x", "http://example.org/x", "#_scxml_1", "#_scxml_", "#_scxml_-1", "#_scxml_kid"];
+pub const KF_INVOKEID_LIKE_SESSION_TARGET: u32 = 1501;
+pub const KF_SAME_SENDID_PENDING: u32 = 1602;
 
 fn mk_send(target_ix: usize, via_expr: bool, type_ix: u32, payload: u32) -> SendParameters {
     let mut sp = SendParameters::new();
@@ -107,24 +109,36 @@ fn int_param(e: &Event, name: &str) -> Option<i64> {
 fn route() {
     let with_parent = vnd_bool(1);
     let with_child = vnd_bool(2);
-    let tix0 = vnd_conc(vnd_range(0, 6, 3), 6) as usize;
-    // index 6 stands for the sender's own session id ("#_scxml_1"): its external queue
-    let tix = if tix0 == 6 { 9 } else { tix0 };
+    let tix0 = vnd_conc(vnd_range(0, 7, 3), 7) as usize;
+    // index 6 stands for the sender's own session id ("#_scxml_1"): its external queue;
+    // index 7 for "#_<invokeid>" with an invoke id that begins with "scxml_" (the child is registered under "scxml_kid" as well)
+    let tix = if tix0 == 6 { 9 } else if tix0 == 7 { 12 } else { tix0 };
     let via_expr = vnd_bool(4);
     let type_ix = vnd_range(0, 2, 5);
     let payload = vnd_conc(vnd_range(0, 3, 6), 3);
     let a = vnd_i64(7);
     vnd_assume(a < i64::MAX);
     // addressed sessions must exist in this harness (failing targets: h_c12_send_errors)
-    vnd_assume((tix != 4 || with_parent) && (tix != 5 || with_child));
+    vnd_assume((tix != 4 || with_parent) && ((tix != 5 && tix != 12) || with_child));
     let t = topo(with_parent, with_child);
     t.g[0].lock().unwrap().data.set_undefined("a".to_string(), Data::Integer(a));
+    if tix == 12 {
+        let child = t.ex.state.lock().unwrap().sessions.get(&3).unwrap().clone();
+        t.g[0].lock().unwrap().child_sessions.insert("scxml_kid".to_string(), child);
+    }
     let fsm = Fsm::new();
     let mut dm = RFsmExpressionDatamodel::new(t.g[0].clone());
     let sp = mk_send(tix, via_expr, type_ix, payload);
     let ok = sp.execute(&mut dm, &fsm);
     let (e1, e2, e3) = (drain_ext(&t.g[0]), drain_ext(&t.g[1]), drain_ext(&t.g[2]));
     let i1 = t.g[0].lock().unwrap().vh_internal_queue_len();
+    if tix == 12 {
+        // known finding 1501: "#_scxml_kid" is taken for a session-id target although "scxml_kid" is the id of a running invoke
+        vnd_cover(1501);
+        vnd_check_kf(1507, ok && e3.len() == 1 && e1.is_empty() && e2.is_empty() && i1 == 0, KF_INVOKEID_LIKE_SESSION_TARGET, true);
+        vnd_obs(1, (e1.len() + 10 * e2.len() + 100 * e3.len() + 1000 * i1) as u64);
+        return;
+    }
     let want = match tix { 0 | 9 => 1, 1 => 0, 2 | 4 => 2, _ => 3 };
     vnd_cover(1501);
     vnd_check(1501, ok && e1.len() == if want == 1 { 1 } else { 0 } && e2.len() == if want == 2 { 1 } else { 0 } && e3.len() == if want == 3 { 1 } else { 0 } && i1 == if want == 0 { 1 } else { 0 });
@@ -288,15 +302,15 @@ fn delayed_schedule() {
 
 /// C16: several pending delayed sends (with and without ids) are all delivered, each exactly once; cancelling one leaves the others
 fn delayed_two() {
-    let ids = vnd_conc(vnd_range(0, 2, 1), 2);          // 0: both without id, 1: first with id, 2: both with ids
-    let cancel_first = ids >= 1 && vnd_bool(2);
+    let ids = vnd_conc(vnd_range(0, 3, 1), 3);          // 0: both without id, 1: first with id, 2: both with ids, 3: both with the SAME id
+    let cancel_first = (ids == 1 || ids == 2) && vnd_bool(2);
     let t = topo(false, false);
     let fsm = Fsm::new();
     let mut dm = RFsmExpressionDatamodel::new(t.g[0].clone());
     let mut s1 = mk_send(0, false, 1, 0); s1.event = Data::String("first".to_string()); s1.delay_ms = 40;
     s1.name = if ids >= 1 { "id1".to_string() } else { String::new() };
     let mut s2 = mk_send(0, false, 1, 0); s2.event = Data::String("second".to_string()); s2.delay_ms = 90;
-    s2.name = if ids >= 2 { "id2".to_string() } else { String::new() };
+    s2.name = if ids == 3 { "id1".to_string() } else if ids >= 2 { "id2".to_string() } else { String::new() };
     let ok1 = s1.execute(&mut dm, &fsm);
     let ok2 = s2.execute(&mut dm, &fsm);
     if cancel_first { let mut c = Cancel::new(); c.send_id = "id1".to_string(); c.execute(&mut dm, &fsm); }
@@ -306,7 +320,8 @@ fn delayed_two() {
     let n1 = got.iter().filter(|e| e.name == "first").count();
     let n2 = got.iter().filter(|e| e.name == "second").count();
     vnd_cover(1620);
-    vnd_check(1620, ok1 && ok2 && n1 == if cancel_first { 0 } else { 1 } && n2 == 1 && got.len() == n1 + n2);
+    // known finding 1602: a second pending send with the same id replaces the timer guard of the first one, which cancels it
+    vnd_check_kf(1620, ok1 && ok2 && n1 == if cancel_first { 0 } else { 1 } && n2 == 1 && got.len() == n1 + n2, KF_SAME_SENDID_PENDING, ids == 3);
     vnd_obs(1, got.len() as u64);
     drop(fsm);
 }
